@@ -519,6 +519,16 @@ func anyFuncOf(kind string, i int, log *[]int) (*jsonv2.Marshalers, *jsonv2.Unma
 	case "slice":
 		return jsonv2.MarshalFunc(func(x []any) ([]byte, error) { return mark(), nil }),
 			jsonv2.UnmarshalFunc(func(b []byte, x *[]any) error { mark(); *x = []any{float64(i)}; return nil })
+	// Go types that no JSON text decodes into, but that an `any` may hold when marshaling
+	case "int":
+		return jsonv2.MarshalFunc(func(x int) ([]byte, error) { return mark(), nil }),
+			jsonv2.UnmarshalFunc(func(b []byte, x *int) error { mark(); return nil })
+	case "int64":
+		return jsonv2.MarshalFunc(func(x int64) ([]byte, error) { return mark(), nil }),
+			jsonv2.UnmarshalFunc(func(b []byte, x *int64) error { mark(); return nil })
+	case "strings":
+		return jsonv2.MarshalFunc(func(x []string) ([]byte, error) { return mark(), nil }),
+			jsonv2.UnmarshalFunc(func(b []byte, x *[]string) error { mark(); return nil })
 	}
 	return jsonv2.MarshalFunc(func(x complex64) ([]byte, error) { return mark(), nil }),
 		jsonv2.UnmarshalFunc(func(b []byte, x *complex64) error { mark(); return nil })
@@ -533,8 +543,9 @@ func replayAnyF(args map[string]string) error {
 	defer out.close()
 	var cases, evals atomic.Int64
 	// containers are empty so that no inner key or element is itself a candidate for a function
-	vals := map[string]any{"bool": true, "string": "s", "float64": 1.5, "map": map[string]any{}, "slice": []any{}}
-	texts := map[string]string{"bool": `true`, "string": `"s"`, "float64": `1.5`, "map": `{}`, "slice": `[]`}
+	vals := map[string]any{"bool": true, "string": "s", "float64": 1.5, "map": map[string]any{}, "slice": []any{}, "int": 7, "int64": int64(-8), "strings": []string{}}
+	texts := map[string]string{"bool": `true`, "string": `"s"`, "float64": `1.5`, "map": `{}`, "slice": `[]`, "int": `7`, "int64": `-8`, "strings": `[]`}
+	marshalOnly := map[string]bool{"int": true, "int64": true, "strings": true}
 	err = parallelLines(args["cases"], runtime.NumCPU(), func(line []byte) {
 		var rec []any
 		if err := jsonv2.Unmarshal(line, &rec); err != nil || len(rec) != 3 {
@@ -578,6 +589,9 @@ func replayAnyF(args map[string]string) error {
 			}
 			if merr != nil || string(got) != want || !reflect.DeepEqual(append([]int{}, log...), wantLog) {
 				bad("marshal", "output", string(got)+fmt.Sprint(" err=", merr), want)
+			}
+			if marshalOnly[vk] {
+				continue
 			}
 			log = nil
 			uerr := jsonv2.Unmarshal([]byte(w.pre+texts[vk]+w.post), w.target(), jsonv2.WithUnmarshalers(jsonv2.JoinUnmarshalers(us...)))
